@@ -17,6 +17,7 @@ EXTENDS Integers, Sequences, FiniteSets, TLC, Json, CSV, IOUtils
 CONSTANTS Groups,    \* set of component groups (1..NG)
           MaxReq,    \* number of requests the clients send (ids 1..MaxReq in send order)
           MaxDepth,  \* history bound (generation only)
+          MaxRestart, \* how often the actor's run loop is cancelled and started again (generation only)
           Mode       \* "mc" | "gen" | "sim" | "trace"
 
 VARIABLES chan,         \* requests channel: sequence of [g, p]
@@ -24,10 +25,11 @@ VARIABLES chan,         \* requests channel: sequence of [g, p]
           pend,         \* g -> pending request id or 0
           nsent, lastSent, lastRecv, lastEntered,
           nrun,         \* g -> number of distribute_power calls currently executing
+          nrestart,     \* number of actor restarts so far (the actor's dictionaries survive a restart)
           h             \* history of actions (hidden by VIEW)
 
-vars == <<chan, infl, pend, nsent, lastSent, lastRecv, lastEntered, nrun, h>>
-View == <<chan, infl, pend, nsent, lastSent, lastRecv, lastEntered, nrun>>
+vars == <<chan, infl, pend, nsent, lastSent, lastRecv, lastEntered, nrun, nrestart, h>>
+View == <<chan, infl, pend, nsent, lastSent, lastRecv, lastEntered, nrun, nrestart>>
 
 NoTask == [p |-> 0, st |-> "none", o |-> "none"]
 Outcomes == {"ok", "exc"}
@@ -44,6 +46,7 @@ Init ==
     /\ lastRecv = [g \in Groups |-> 0]
     /\ lastEntered = [g \in Groups |-> 0]
     /\ nrun = [g \in Groups |-> 0]
+    /\ nrestart = 0
     /\ h = <<>>
 
 Send(g) ==
@@ -51,7 +54,7 @@ Send(g) ==
     /\ nsent' = nsent + 1
     /\ chan' = Append(chan, [g |-> g, p |-> nsent + 1])
     /\ lastSent' = [lastSent EXCEPT ![g] = nsent + 1]
-    /\ UNCHANGED <<infl, pend, lastRecv, lastEntered, nrun>>
+    /\ UNCHANGED <<infl, pend, lastRecv, lastEntered, nrun, nrestart>>
 
 ActorRecv ==
     /\ chan # <<>>
@@ -61,25 +64,25 @@ ActorRecv ==
             ELSE infl' = [infl EXCEPT ![r.g] = [p |-> r.p, st |-> "created", o |-> "none"]] /\ UNCHANGED pend
          /\ lastRecv' = [lastRecv EXCEPT ![r.g] = r.p]
     /\ chan' = Tail(chan)
-    /\ UNCHANGED <<nsent, lastSent, lastEntered, nrun>>
+    /\ UNCHANGED <<nsent, lastSent, lastEntered, nrun, nrestart>>
 
 Enter(g) ==
     /\ infl[g].st = "created"
     /\ infl' = [infl EXCEPT ![g].st = "running"]
     /\ lastEntered' = [lastEntered EXCEPT ![g] = infl[g].p]
     /\ nrun' = [nrun EXCEPT ![g] = @ + 1]
-    /\ UNCHANGED <<chan, pend, nsent, lastSent, lastRecv>>
+    /\ UNCHANGED <<chan, pend, nsent, lastSent, lastRecv, nrestart>>
 
 Resolve(g, o) ==
     /\ infl[g].st = "running" /\ infl[g].o = "none"
     /\ infl' = [infl EXCEPT ![g].o = o]
-    /\ UNCHANGED <<chan, pend, nsent, lastSent, lastRecv, lastEntered, nrun>>
+    /\ UNCHANGED <<chan, pend, nsent, lastSent, lastRecv, lastEntered, nrun, nrestart>>
 
 Exit(g) ==
     /\ infl[g].st = "running" /\ infl[g].o # "none"
     /\ infl' = [infl EXCEPT ![g].st = "finished"]
     /\ nrun' = [nrun EXCEPT ![g] = @ - 1]
-    /\ UNCHANGED <<chan, pend, nsent, lastSent, lastRecv, lastEntered>>
+    /\ UNCHANGED <<chan, pend, nsent, lastSent, lastRecv, lastEntered, nrestart>>
 
 Callback(g) ==
     /\ infl[g].st = "finished"
@@ -88,7 +91,7 @@ Callback(g) ==
             /\ pend' = [pend EXCEPT ![g] = 0]
        ELSE /\ infl' = [infl EXCEPT ![g] = NoTask]
             /\ UNCHANGED pend
-    /\ UNCHANGED <<chan, nsent, lastSent, lastRecv, lastEntered, nrun>>
+    /\ UNCHANGED <<chan, nsent, lastSent, lastRecv, lastEntered, nrun, nrestart>>
 
 ----------------------------------------------------------------------------
 Rec(a, g, o) == [a |-> a, g |-> g, o |-> o]
@@ -106,7 +109,15 @@ ResolveStep == Gen /\ (\E g \in Groups, o \in Outcomes : Resolve(g, o) /\ Log(Re
 ExitStep == Gen /\ (\E g \in Groups : Exit(g) /\ Log(Rec("int", g, ""))) /\ EmitRule
 CallbackStep == Gen /\ (\E g \in Groups : Callback(g) /\ Log(Rec("int", g, ""))) /\ EmitRule
 
-Next == SendStep \/ RecvStep \/ EnterStep \/ ResolveStep \/ ExitStep \/ CallbackStep
+\* The run loop of the actor is cancelled and started again (stop()/start(), or a crash followed
+\* by the automatic restart).  Distribution tasks are not owned by the run loop and the actor's
+\* dictionaries are attributes of the object, so nothing of the modelled state changes; requests
+\* sent meanwhile wait in the channel.
+Restart == /\ nrestart' = nrestart + 1
+           /\ UNCHANGED <<chan, infl, pend, nsent, lastSent, lastRecv, lastEntered, nrun>>
+RestartStep == Gen /\ Mode \in {"gen", "sim"} /\ nrestart < MaxRestart /\ Restart /\ Log(Rec("restart", 0, "")) /\ EmitRule
+
+Next == SendStep \/ RecvStep \/ EnterStep \/ ResolveStep \/ ExitStep \/ CallbackStep \/ RestartStep
 
 Internal == RecvStep \/ EnterStep \/ ExitStep \/ CallbackStep
 Spec == Init /\ [][Next]_vars
